@@ -6,7 +6,7 @@ namespace PySMT.Opt
 open PySMT.OptSpec
 
 section
-variable {M : Type} {A : M → Prop} {obj : Nat → M → Int} {o : Oracle M}
+variable {M : Type} {A : M → Prop} {val : Nat → M → Val} {obj : Nat → M → Int} {o : Oracle M}
 
 /-- one iteration of the search loop: a final answer or the next state -/
 def stepLoop (o : Oracle M) (obj : Nat → M → Int) (mx : Mixin) (strat : Strat) (g : Goal) (gi : Nat)
@@ -114,12 +114,12 @@ theorem attained_of {S : M → Prop} {p : Nat × Goal}
   obtain ⟨c, ⟨mo, _, hc⟩, hopt⟩ := h hex
   exact ⟨mo, fun m hm => by rw [hc]; exact (sense_le p.2 _ _).1 (hopt m hm)⟩
 
-theorem optimize_stable (hO : OracleSpec A obj o) {g : Goal} {gi : Nat} (hsup : g.supported = true)
-    (hDom : ∀ m, A m → castOk g.dom (obj gi m) = true)
+theorem optimize_stable (hO : OracleSpec A val o) {g : Goal} {gi : Nat} (hsup : g.supported = true)
+    (hG : GoalReads A val obj g gi)
     (mx : Mixin) (strat : Strat) (extra : List Constraint) (s : Solver M)
-    (hatt : Attained obj (Feas A obj s.stack (effExtra mx extra)) (gi, g)) :
+    (hatt : Attained obj (Feas A val s.stack (effExtra mx extra)) (gi, g)) :
     ∃ N, Stable (fun n => optimize o obj mx strat g gi extra n s) N := by
-  obtain ⟨N, hN⟩ := optimize_terminates (gi := gi) hO hsup hDom mx strat extra s hatt
+  obtain ⟨N, hN⟩ := optimize_terminates (gi := gi) hO hsup hG mx strat extra s hatt
   exact ⟨N, optimize_stable_of mx strat g gi extra s N (hN N (Nat.le_refl _))⟩
 
 def boxedK (gi : Nat) (m : M) (c : Int) (r : Outcome (Option (List (Nat × M × Int))) × Solver M) :
@@ -173,9 +173,9 @@ theorem boxedK_fuel (gi : Nat) (m : M) (c : Int) (r : Outcome (Option (List (Nat
   | emptyGoals => simp [boxedK]
 
 /-- `boxed_optimize` terminates when every goal's optimum is attained -/
-theorem boxed_stable (hO : OracleSpec A obj o) (mx : Mixin) (strat : Strat) :
-    ∀ (goals : List (Nat × Goal)) (s : Solver M), GoalsOk A obj goals →
-      (∀ p ∈ goals, Attained obj (Feas A obj s.stack []) p) →
+theorem boxed_stable (hO : OracleSpec A val o) (mx : Mixin) (strat : Strat) :
+    ∀ (goals : List (Nat × Goal)) (s : Solver M), GoalsOk A val obj goals →
+      (∀ p ∈ goals, Attained obj (Feas A val s.stack []) p) →
       ∃ N, Stable (fun n => boxed o obj mx strat n goals s) N := by
   intro goals
   induction goals with
@@ -224,20 +224,20 @@ theorem Attained_congr {S S' : M → Prop} (h : ∀ m, S m ↔ S' m) (p : Nat ×
   obtain ⟨mo, hmo⟩ := ha ⟨m, (h m).2 hm⟩
   exact ⟨mo, fun m' hm' => hmo m' ((h m').2 hm')⟩
 
-theorem lexStep_stable (hO : OracleSpec A obj o) {g : Goal} {gi : Nat} (hsup : g.supported = true)
-    (hDom : ∀ m, A m → castOk g.dom (obj gi m) = true)
+theorem lexStep_stable (hO : OracleSpec A val o) {g : Goal} {gi : Nat} (hsup : g.supported = true)
+    (hG : GoalReads A val obj g gi)
     (mx : Mixin) (strat : Strat) (cd : List Constraint) (s : Solver M)
-    (hatt : Attained obj (Feas A obj s.stack cd) (gi, g)) :
+    (hatt : Attained obj (Feas A val s.stack cd) (gi, g)) :
     ∃ N, Stable (fun n => lexStep o obj mx strat g gi cd n s) N := by
   cases mx with
-  | sua => exact optimize_stable hO hsup hDom .sua strat cd s hatt
+  | sua => exact optimize_stable hO hsup hG .sua strat cd s hatt
   | incr =>
     obtain ⟨a1, _, _⟩ := addAll_props s.push cd
-    obtain ⟨N, hN, hst⟩ := optimize_stable (gi := gi) hO hsup hDom .incr strat [] (s.push.addAll cd) (by
+    obtain ⟨N, hN, hst⟩ := optimize_stable (gi := gi) hO hsup hG .incr strat [] (s.push.addAll cd) (by
       simp only [effExtra]
       have hst : (s.push.addAll cd).stack = s.stack ++ cd := by rw [a1]; rfl
       rw [hst]
-      exact Attained_congr (fun m => (Feas_append (A := A) (obj := obj) s.stack cd m).symm) _ hatt)
+      exact Attained_congr (fun m => (Feas_append (A := A) (val := val) s.stack cd m).symm) _ hatt)
     refine ⟨N, ?_, ?_⟩
     · simp only [lexStep]; exact hN
     · intro n hge
@@ -245,18 +245,18 @@ theorem lexStep_stable (hO : OracleSpec A obj o) {g : Goal} {gi : Nat} (hsup : g
       simp only at hst
       rw [hst n hge]
 
-def lexF (gi : Nat) (vals : List Int) (cd : List Constraint)
+def lexF (gi : Nat) (gdom : Dom) (vals : List Int) (cd : List Constraint)
     (run : List Constraint → M → List Int → Solver M → Outcome (Option (M × List Int)) × Solver M)
     (r1 : Outcome (Option (M × Int)) × Solver M) : Outcome (Option (M × List Int)) × Solver M :=
   match r1 with
   | (.done none, s1) => (.done none, s1.pop)
-  | (.done (some (m, v)), s1) => run (cd ++ [.eq gi v]) m (vals ++ [v]) s1
+  | (.done (some (m, v)), s1) => run (cd ++ [.eq gi gdom v]) m (vals ++ [v]) s1
   | (e, s1) => (e.cast none, s1)
 
 theorem lexLoop_cons (mx : Mixin) (strat : Strat) (n : Nat) (gi : Nat) (g : Goal) (rest : List (Nat × Goal))
     (cd : List Constraint) (last : Option M) (vals : List Int) (s : Solver M) :
     lexLoop o obj mx strat n ((gi, g) :: rest) cd last vals s =
-      lexF gi vals cd (fun cd' m vals' s1 => lexLoop o obj mx strat n rest cd' (some m) vals' s1)
+      lexF gi g.dom vals cd (fun cd' m vals' s1 => lexLoop o obj mx strat n rest cd' (some m) vals' s1)
         (lexStep o obj mx strat g gi cd n s) := by
   rw [lexLoop]
   cases h : lexStep o obj mx strat g gi cd n s with
@@ -273,10 +273,10 @@ theorem lexLoop_cons (mx : Mixin) (strat : Strat) (n : Nat) (gi : Nat) (g : Goal
 
 /-- `lexicographic_optimize` terminates when the optimum of every goal is attained on every set of
     models that fixes the values of earlier goals -/
-theorem lexLoop_stable (hO : OracleSpec A obj o) (mx : Mixin) (strat : Strat) (base : List Constraint) :
+theorem lexLoop_stable (hO : OracleSpec A val o) (mx : Mixin) (strat : Strat) (base : List Constraint) :
     ∀ (goals : List (Nat × Goal)) (cd : List Constraint) (last : Option M) (vals : List Int) (s : Solver M),
-      s.stack = base → GoalsOk A obj goals →
-      (∀ cd', ∀ p ∈ goals, Attained obj (Feas A obj base cd') p) →
+      s.stack = base → GoalsOk A val obj goals →
+      (∀ cd', ∀ p ∈ goals, Attained obj (Feas A val base cd') p) →
       ∃ N, Stable (fun n => lexLoop o obj mx strat n goals cd last vals s) N := by
   intro goals
   induction goals with
@@ -308,7 +308,7 @@ theorem lexLoop_stable (hO : OracleSpec A obj o) (mx : Mixin) (strat : Strat) (b
           simp only [lexLoop_cons, hst1 n hge, hr, lexF]
       | some mc =>
         obtain ⟨m, v⟩ := mc
-        obtain ⟨N2, hN2, hst2⟩ := ih (cd ++ [.eq gi v]) (some m) (vals ++ [v]) s1 (by rw [e1, hbase])
+        obtain ⟨N2, hN2, hst2⟩ := ih (cd ++ [.eq gi g.dom v]) (some m) (vals ++ [v]) s1 (by rw [e1, hbase])
           (fun q hq => hok q (by simp [hq])) (fun cd' q hq => hatt cd' q (by simp [hq]))
         simp only at hN2 hst2
         refine ⟨max N1 N2, ?_, ?_⟩
